@@ -816,15 +816,26 @@ def _kind(e: ast.expr, delay: str) -> str:
     return "?"
 
 
+def _first_arg(c: ast.Call) -> "ast.expr | None":
+    """The scheduler's delay argument, positional or by keyword."""
+    if c.args:
+        return c.args[0]
+    for k in c.keywords:
+        if k.arg in ("delay", "wait", "wait_time"):
+            return k.value
+    return None
+
+
 def _delay_value(ctx: Ctx, f: Func, c: ast.Call) -> Any:
-    if not c.args:
+    a = _first_arg(c)
+    if a is None:
         return Unknown
-    return ctx.sym.eval(_inline_locals(f, c.args[0]), f.module.name)
+    return ctx.sym.eval(_inline_locals(f, a), f.module.name)
 
 
 def _delay_on_paths(ctx: Ctx, rl: RL, f: Func, g: CFG, c: ast.Call, asg: dict[str, bool], cl) -> list[Any]:
     """Values the scheduler's argument can take at call c under the assignment (locals assigned on branches)."""
-    arg = c.args[0] if c.args else None
+    arg = _first_arg(c)
     if arg is None:
         return ["<no argument>"]
     if not isinstance(arg, ast.Name):
